@@ -147,7 +147,10 @@ def independent_unpack(fmts, raw, data):
     return tuple(vals) + (raw[pos:],)
 
 
-FMT_POOL = ["B", "H", "I", "Q", "b", "h", "i", "q", "HB", "H2xH", "4s", "BBH", "IH"]
+FMT_POOL = ["B", "H", "I", "Q", "b", "h", "i", "q", "HB", "H2xH", "4s", "BBH", "IH",
+            "f", "d", "?", "Hf"]
+BIG_FMTS = ["1025s", "1300s", "1024s", "300I", "700H"]     # large areas, read in one go
+FLOATS = [0.0, -0.0, 1.5, -2.25, 1024.0, -0.0, 0.0]
 
 
 def gen_args(tape):
@@ -155,17 +158,28 @@ def gen_args(tape):
     args = []
     nf = tape.draw("c13/nfmt", 4)
     trailing = nf > 0 and tape.chance("c13/trailing", 30)
+    big = tape.chance("c13/big-area", 8)
     for k in range(nf):
         fmt = tape.pick("c13/fmt", FMT_POOL)
+        if big and k == nf - 1:
+            fmt = tape.pick("c13/big-fmt", BIG_FMTS)
         args.append(fmt)
         if trailing and k == nf - 1:
             break
         probe = struct.unpack("<" + fmt, bytes(struct.calcsize("<" + fmt)))
         for j, p in enumerate(probe):
             if isinstance(p, bytes):
-                args.append(tape.bytes("c13/val-bytes", len(p)))
+                args.append(tape.bytes("c13/val-bytes", min(len(p), 8)) + bytes(
+                    (i * 13 + 5) & 0xff for i in range(max(0, len(p) - 8))))
+            elif isinstance(p, bool):
+                args.append(bool(tape.draw("c13/val-bool", 2)))
+            elif isinstance(p, float):
+                args.append(tape.pick("c13/val-float", FLOATS))
             else:
-                c = [c for c in fmt if c not in "x0123456789s"][j] if True else "B"
+                c = [c for c in "".join(ch * int(n or 1) for n, ch in
+                                        __import__("re").findall(r"(\d*)([a-zA-Z?])", fmt))
+                     if c not in "xs"][j] if fmt[0].isdigit() else \
+                    [c for c in fmt if c not in "x0123456789s"][j]
                 bits = 8 * struct.calcsize("<" + c)
                 v = tape.draw("c13/val", 1 << min(bits, 32))
                 if bits > 32:
@@ -174,7 +188,11 @@ def gen_args(tape):
                     v -= 1 << (bits - 1)
                 args.append(v)
     kind = tape.draw("c13/data-kind", 5)
-    if kind == 0:
+    if big and nf == 0:
+        data = tape.pick("c13/big-count", [1025, 1100, 1400, 1024])     # a large zero count
+    elif big:
+        data = None
+    elif kind == 0:
         data = None
     elif kind == 1:
         data = tape.bytes("c13/data", 1 + tape.draw("c13/datalen", 12))
@@ -523,7 +541,7 @@ def run_workload(tape, *, faults=True, fmt_args=False, oversize=True, cancels=Tr
                 viol("value-despite-wkc0", f"request {r.rid} returned a value, wkc was 0")
                 continue
             want = independent_unpack(r.expect_fmt, raw, r.data)
-            if r.value != want:
+            if r.value != want and repr(r.value) != repr(want):      # (NaN != NaN)
                 if fmt_args:
                     viol("decode-mismatch",
                          f"request {r.rid} args={r.args!r} data={r.data!r}: returned "
